@@ -319,23 +319,24 @@ type perKey struct {
 }
 
 type periodCase struct {
-	c       *kit.Case
-	w       *world
-	st      *redis.Redis
-	period  int
-	quota   int
-	align   bool
-	prefix  string
-	lim     *limit.PeriodLimit
-	keys    []*perKey
-	log     []string
-	outage  string // "" healthy
-	dirty   bool   // a call whose execution is unknown happened; reconcile with the store
-	abort   bool
-	crossed int64
-	sawOver bool
-	sha     int64
-	nontriv bool
+	c          *kit.Case
+	w          *world
+	st         *redis.Redis
+	period     int
+	quota      int
+	align      bool
+	callsBegan time.Time // wall clock (monotonic) when the current call / burst began; Align() only
+	prefix     string
+	lim        *limit.PeriodLimit
+	keys       []*perKey
+	log        []string
+	outage     string // "" healthy
+	dirty      bool   // a call whose execution is unknown happened; reconcile with the store
+	abort      bool
+	crossed    int64
+	sawOver    bool
+	sha        int64
+	nontriv    bool
 }
 
 func (p *periodCase) params() map[string]any {
@@ -408,6 +409,20 @@ func (p *periodCase) startPeriod(k *perKey) {
 			p.abort = true
 			return
 		}
+		// ... and that the counter must live at least until the wall-clock window ends: the time
+		// left in the window, measured now (i.e. after go-zero computed it, so it can only be
+		// smaller), is a lower bound of a correct TTL; a shorter TTL ends the period early and the
+		// requests in the rest of the window are granted again.
+		left := alignedWindowLeft(p.period)
+		if into := time.Duration(p.period)*time.Second - left; into < time.Since(p.callsBegan) {
+			// a window boundary was crossed since the call(s) began: the TTL may stem from the previous window
+			p.c.Obs("period_align_window_boundary_crossed_during_call", 1)
+		} else if ttl < left {
+			p.c.Viol("C03/period/align-period-ends-before-the-window", fmt.Sprintf("Align(): TTL after the first take is %v but the wall-clock window of %ds still lasts %v", ttl, p.period, left), p.witness(""))
+			p.abort = true
+			return
+		}
+		p.c.Obs("period_align_ttl_covers_the_window", 1)
 		k.remain = ttl
 		p.logf("  (aligned period: TTL %v)", ttl)
 	} else if ttl == time.Duration(p.period)*time.Second {
@@ -472,6 +487,7 @@ func (p *periodCase) takeSeq(k *perKey, cancelled bool) {
 		return
 	}
 	shaBefore := p.w.shaSeen.Load()
+	p.callsBegan = time.Now()
 	code, err := p.lim.TakeCtx(ctx, k.name)
 	p.c.Obs("period_takes", 1)
 	p.sha = p.w.shaSeen.Load()
@@ -795,6 +811,7 @@ func runPeriodConc(c *kit.Case, w *world) {
 				w.px.setDown(false)
 			}
 		}()
+		p.callsBegan = time.Now()
 		close(start)
 		done := make(chan struct{})
 		go func() { wg.Wait(); <-faultDone; close(done) }()
@@ -950,6 +967,16 @@ func runPeriodConc(c *kit.Case, w *world) {
 	if c.Index < 2 || straddled {
 		c.Sample("period-concurrent", 2, p.witness("sample"))
 	}
+}
+
+// alignedWindowLeft is the exact time left in the current wall-clock aligned window of the given
+// length (aligned in local time, as limit.Align documents it).
+func alignedWindowLeft(period int) time.Duration {
+	now := time.Now()
+	_, offset := now.Zone()
+	ns := now.UnixNano() + int64(offset)*int64(time.Second)
+	w := int64(period) * int64(time.Second)
+	return time.Duration(w - ns%w)
 }
 
 func alignOpt(a bool) []limit.PeriodOption {
